@@ -301,7 +301,20 @@ def _action(body: List[ast.stmt]) -> str:
     return "other"
 
 
-@rule("C05.R1", ["C05", "C04", "C01"], min_instances=3, design="3.5")
+def _pair_generator(g: ast.AST):
+    """(pair generator, flattened?) -- `((K, V) for k, v in M.items())` as written, or the same pairs
+    already flattened by a second clause: `(c for k, v in M.items() for c in (K, V))`."""
+    if isinstance(g, ast.GeneratorExp) and len(g.generators) == 2 and isinstance(g.elt, ast.Name) \
+            and isinstance(g.generators[1].target, ast.Name) and g.generators[1].target.id == g.elt.id \
+            and isinstance(g.generators[1].iter, (ast.Tuple, ast.List)) and len(g.generators[1].iter.elts) == 2 \
+            and not g.generators[1].ifs:
+        pair = ast.GeneratorExp(elt=ast.Tuple(elts=list(g.generators[1].iter.elts), ctx=ast.Load()),
+                                generators=[g.generators[0]])
+        return ast.copy_location(pair, g), True
+    return g, False
+
+
+@rule("C05.R1", ["C05", "C04", "C01", "C07"], min_instances=3, design="3.5")
 def prefix_table_agreement(ctx):
     """Evaluating the reader's discriminator chain on the writer's four prefix constants classifies each to its own kind and strips exactly its own length; tags are written before fields."""
     pcs = prefix_consts(ctx)
@@ -323,7 +336,7 @@ def prefix_table_agreement(ctx):
     except Unknown as ex:
         # not an if/elif chain on prefix characters: the abstract interpreter of C05.R5 decides the
         # classification instead (it interprets whatever the decoder does)
-        yield Ob("C05.R1", ["C05", "C04", "C01"], "Point | prefix discriminator chain", True,
+        yield Ob("C05.R1", ["C05", "C04", "C01", "C07"], "Point | prefix discriminator chain", True,
                  f"decoder does not use a character-test chain ({ex}); classification is decided by C05.R5",
                  de.loc(), nontrivial=False)
         tag_chain = field_chain = None
@@ -354,7 +367,7 @@ def prefix_table_agreement(ctx):
             r2 = classify(field_chain, val)
             if r2 != f"slice:{name}":
                 bad.append(f"field loop does `{r2}` for a key starting with {val!r}, expected strip len({name})")
-        yield Ob("C05.R1", ["C05", "C04", "C01"], f"Point | prefix {name}={val!r} round trip", not bad,
+        yield Ob("C05.R1", ["C05", "C04", "C01", "C07"], f"Point | prefix {name}={val!r} round trip", not bad,
                  "; ".join(bad) if bad else f"classified as {kind} and stripped by its own length", de.loc())
     # writer: tags before fields, prefix + key, compact flag selects the compact pair
     ser = ctx.prog.func("Point._serialize_to_list", "C05.R1")
@@ -375,12 +388,12 @@ def prefix_table_agreement(ctx):
             and norm(vals[0].orelse) == f"self._default_{kind}_key_prefix"
         if not ok:
             bad.append(f"{kind} prefix selection is `{norm(vals[0], 80) if vals else '?'}`")
-        gens = assignments_to(ser, f"{kind}s")
+        gens = [_pair_generator(g_)[0] for g_ in assignments_to(ser, f"{kind}s")]
         if not (len(gens) == 1 and isinstance(gens[0], ast.GeneratorExp) and isinstance(gens[0].elt, ast.Tuple)
                 and norm(gens[0].elt.elts[0]) in (f"f'{{{kind}_key_prefix}}{{k}}'", f"{kind}_key_prefix + k")
                 and norm(gens[0].generators[0].iter) == f"self._{kind}s.items()"):
             bad.append(f"{kind} pairs are not (prefix + key, encoded value) over self._{kind}s.items()")
-    yield Ob("C05.R1", ["C05", "C04", "C01"], f"{ser.qual} | row layout", not bad,
+    yield Ob("C05.R1", ["C05", "C04", "C01", "C07"], f"{ser.qual} | row layout", not bad,
              "; ".join(bad) if bad else "(time, measurement, *tag pairs, *field pairs) with the selected prefix pair",
              ser.loc())
     # reader consumes pairs (key at i, value at i + 1, step 2) and starts after time, measurement
@@ -409,7 +422,7 @@ def prefix_table_agreement(ctx):
     head = {norm(n.targets[0]): norm(n.value) for n in walk_local(de.node) if isinstance(n, ast.Assign)}
     if f"{row}[1]" not in head.values():
         bad.append("measurement is not read from column 1")
-    yield Ob("C05.R1", ["C05", "C04", "C01"], f"{de.qual} | pair layout", not bad,
+    yield Ob("C05.R1", ["C05", "C04", "C01", "C07"], f"{de.qual} | pair layout", not bad,
              "; ".join(bad) if bad else "pairs from column 2, key at i, value at i + 1, step 2", de.loc())
 
 
@@ -526,7 +539,7 @@ def lossless_encoders(ctx):
              "; ".join(bad) if bad else "datetime.fromisoformat(row[0])", de.loc())
     # tag values / field values / keys: the generator expressions of the writer
     for kind in ("tag", "field"):
-        gens = assignments_to(ser, f"{kind}s")
+        gens = [_pair_generator(g_)[0] for g_ in assignments_to(ser, f"{kind}s")]
         bad = []
         if len(gens) != 1 or not isinstance(gens[0], ast.GeneratorExp) or not isinstance(gens[0].elt, ast.Tuple) \
                 or len(gens[0].elt.elts) != 2:
